@@ -110,6 +110,9 @@ def run_reeval_instance(mod, nodes, edges, mode, deadline=None, max_first=2000, 
     ex1.run(deadline=deadline)
     stats = {'states': ex1.n_states, 'transitions': ex1.n_transitions, 'events': ex1.n_events, 'finals': len(ex1.finals),
              'first_finals': 0, 'second_explorations': 0, 'obligations': 0, 'discharged': 0, 'capped': ex1.capped}
+    if ex1.finals:
+        _s = ex1.finals[0]
+        stats['sample'] = {'path': [[list(a), r] for a, r in _s.path()], 'path_condition': [[repr(a), b] for a, b in sorted(_s.pc.items(), key=repr)][:40]}
     seen = set()
     viols = []
     for st in ex1.finals:
@@ -171,6 +174,9 @@ def run_resume_instance(mod, nodes, edges, mode, deadline=None, max_first=20000,
     stats = {'states': ex1.n_states, 'transitions': ex1.n_transitions, 'events': ex1.n_events, 'finals': len(ex1.finals),
              'interrupted_finals': 0, 'uninterrupted_finals': 0, 'second_explorations': 0, 'obligations': 0, 'discharged': 0,
              'pairs': 0, 'pairs_solver': 0, 'capped': ex1.capped}
+    if ex1.finals:
+        _s = ex1.finals[0]
+        stats['sample'] = {'path': [[list(a), r] for a, r in _s.path()], 'path_condition': [[repr(a), b] for a, b in sorted(_s.pc.items(), key=repr)][:40]}
     outputs = [j for j, k in nodes if k == 'Output']
     U = {}
     I = {}
